@@ -543,6 +543,9 @@ func runC13(r *core.Run) {
 			cases = append(cases, hostileCase{Family: "other", Payload: p, Links: l})
 		}
 	}
+	// deep chains along a name's real hash path: at, just below and beyond the
+	// depth a 64-bit hash can address
+	c13Chains(r)
 	r.Set("hostile_dags", len(cases))
 	r.Set("shard_payloads", len(shardPayloads))
 	r.Set("file_payloads", len(filePayloads))
@@ -581,4 +584,73 @@ func runC13(r *core.Run) {
 type c13Slot struct {
 	c     hostileCase
 	start time.Time
+}
+
+
+// c13Chains: single-child shard chains of depth maxLevels-1 .. maxLevels+2 for
+// every fanout; every operation must return a value or an error.
+func c13Chains(r *core.Run) {
+	names := []string{gen.NameWithHash(0xA5C396E17B2D4F80), gen.NameWithHash(^uint64(0)), "k75"}
+	n := 0
+	for _, fanout := range []int{8, 16, 32, 64, 128, 256, 512, 1024} {
+		w := 0
+		for 1<<uint(w) < fanout {
+			w++
+		}
+		max := model.MaxLevels(w)
+		for _, depth := range []int{1, max - 1, max, max + 1, max + 2} {
+			for _, name := range names {
+				n++
+				s := store.New()
+				root, leaf := gen.DeepChain(s, name, fanout, depth)
+				desc := fmt.Sprintf("chain fanout=%d depth=%d (addressable levels %d) name=%q", fanout, depth, max, name)
+				r.Evaluations.Add(1)
+				r.Distinct(desc)
+				ls := lsFor(s)
+				rn, err := loadRoot(ls, root)
+				if err != nil {
+					r.InternalError("deep chain: " + err.Error())
+					return
+				}
+				for _, how := range []string{"unixfs", "unixfs-preload"} {
+					var nd datamodel.Node
+					var rerr error
+					guard := func(op string, f func()) {
+						if p, pv := core.Guard(f); p {
+							r.Violate("panic chain "+op, fmt.Sprintf("%s via %s: %v", desc, how, pv), map[string]any{"family": "chain", "fanout": fanout, "depth": depth, "name": name})
+						}
+						r.Transitions.Add(1)
+					}
+					guard("reify", func() { nd, rerr = openVia(how, ls, rn) })
+					if rerr != nil || nd == nil {
+						continue
+					}
+					for _, q := range []string{name, "other", names[0], ""} {
+						q := q
+						guard("lookup", func() {
+							res, lerr := lookupAll(nd, q)
+							if q == name && depth <= max && (lerr != nil || res[0] != leaf.Cid.String()) {
+								r.Violate("chain-lookup-misses", fmt.Sprintf("%s via %s: lookup of the chained name = %q err=%v", desc, how, res[0], lerr), nil)
+							}
+							if q == name && depth > max && lerr == nil {
+								r.Violate("chain-lookup-beyond-hash", fmt.Sprintf("%s via %s: lookup succeeded %d levels deep", desc, how, depth), nil)
+							}
+						})
+					}
+					guard("iterate", func() {
+						pairs, _, term := iterateMap(nd, 10*depth+64)
+						if !term {
+							r.Violate("unbounded chain-iterate", desc, nil)
+						}
+						if len(pairs) > 1 {
+							r.Violate("chain-iterate-extra", fmt.Sprintf("%s: %v", desc, pairs), nil)
+						}
+					})
+					guard("length", func() { _ = nd.Length() })
+				}
+				r.States.Add(1)
+			}
+		}
+	}
+	r.Set("deep_chains", n)
 }
